@@ -40,6 +40,9 @@ inductive RTree where
   | rep (n : Nat) (src : RTree)
   | bin (op : Int → Int → Int) (l r : RTree)
   | un (op : Int → Int) (s : RTree)
+  /-- `r.umap(custom)` where the callable combines RollOutcome operations in several steps
+  (`lambda o: abs(o - 4) * 2`): every step yields a fresh outcome whose only source is the previous one -/
+  | unChain (ops : List (Int → Int)) (s : RTree)
   | filt (p : Int → Bool) (srcs : List RTree)
   | sel (which : List Sel) (srcs : List RTree)
   /-- `SubstitutionRoller(lambda o: e.roll() if p(o.value) else o, src, coalesce_mode, max_depth)` -/
@@ -104,6 +107,12 @@ def sumOperand (sr : RollRec) : RO :=
   | _ => .mk (some sr.values.sum) sr.outcomes false
 
 def euthanize (ro : RO) : RO := .mk none [ro] false
+
+/-- what a multi-step custom operator builds from its operand: one fresh, not yet associated outcome
+per step, each recording the previous one as its source -/
+def chainRO : List (Int → Int) → RO → RO
+  | [], a => a
+  | f :: fs, a => chainRO fs (.mk (some (f (a.value.getD 0))) [a] false)
 
 /-- stable insertion sort of roll outcomes by value (an outcome is inserted BEFORE equal-valued ones and the fold runs from the right, so equal values keep their original order) (`list.sort(key=attrgetter("value"))`) -/
 def insertRO (x : RO) : List RO → List RO
@@ -176,6 +185,9 @@ def rollW (mkRoll : List RO → List RollRec → RollRec) : RTree → W RollRec
     let rs ← rollW mkRoll s
     let a := sumOperand rs
     pure (mkRoll [.mk (some (op (a.value.getD 0))) [a] false] [rs])
+  | .unChain ops s => do
+    let rs ← rollW mkRoll s
+    pure (mkRoll [chainRO ops (sumOperand rs)] [rs])
   | .filt p srcs => do
     let rs ← rollAllW mkRoll srcs
     pure (mkRoll ((liveOutcomes rs).map fun ro => if p (ro.value.getD 0) then ro else euthanize ro) rs)
